@@ -59,6 +59,19 @@ pub enum ModelId {
     /// 100x60, natively BGR: init programs and returns the address mode with the colour
     /// order bit inverted relative to the options
     ExtQuirk,
+    /// a built-in model of the tree under test that the harness has no hand-written entry
+    /// for (found by build.rs): index into EXTRA_NAMES
+    Extra(u8),
+}
+
+include!(concat!(env!("OUT_DIR"), "/extra_models.rs"));
+
+/// All built-in models of the tree under test: the 14 the harness was written against plus
+/// whatever build.rs found in addition.
+pub fn builtin() -> Vec<ModelId> {
+    let mut v = BUILTIN.to_vec();
+    v.extend((0..EXTRA_NAMES.len()).map(|i| ModelId::Extra(i as u8)));
+    v
 }
 
 pub const BUILTIN: [ModelId; 14] = [
@@ -113,10 +126,20 @@ pub const BUILTIN_TYPE_NAMES: [&str; 14] = [
 
 impl ModelId {
     pub fn name(self) -> String {
-        format!("{:?}", self)
+        match self {
+            ModelId::Extra(i) => EXTRA_NAMES[i as usize].to_string(),
+            _ => format!("{:?}", self),
+        }
+    }
+    /// a small distinct number per model (hashing, deterministic variation)
+    pub fn ord(self) -> u64 {
+        match self {
+            ModelId::Extra(i) => 64 + i as u64,
+            _ => BUILTIN.iter().chain(EXTERNAL.iter()).position(|m| *m == self).unwrap_or(63) as u64,
+        }
     }
     pub fn is_builtin(self) -> bool {
-        BUILTIN.contains(&self)
+        BUILTIN.contains(&self) || matches!(self, ModelId::Extra(_))
     }
     /// framebuffer size as *documented for the controller* (independent table,
     /// cross-checked against Model::FRAMEBUFFER_SIZE at start-up)
@@ -144,11 +167,14 @@ impl ModelId {
             Ext32768 => (32768, 32768),
             Ext65535 | Ext65535c666 => (65535, 65535),
             ExtQuirk => (100, 60),
+            // no independent table for a model the harness was not written against
+            Extra(i) => extra_fb(i),
         }
     }
     pub fn bits(self) -> u8 {
         use ModelId::*;
         match self {
+            Extra(i) => EXTRA_BITS[i as usize],
             ILI9341Rgb666 | ILI9342CRgb666 | ILI9486Rgb666 | ILI9488Rgb666 | Ext240x320c666 | Ext65535c666 => 18,
             _ => 16,
         }
@@ -159,6 +185,31 @@ impl ModelId {
         match self {
             ILI9486Rgb565 => kind != Kind::Serial,
             RM67162 | GC9107 => kind != Kind::Par16,
+            // no committed matrix for it: what the model itself accepts (probed once); C11 checks
+            // that a refusal happens before any command
+            Extra(i) => {
+                static PROBED: std::sync::OnceLock<Vec<[bool; 3]>> = std::sync::OnceLock::new();
+                let t = PROBED.get_or_init(|| {
+                    (0..EXTRA_NAMES.len())
+                        .map(|j| {
+                            let mut r = [true; 3];
+                            for (k, kind) in [Kind::Serial, Kind::Par8, Kind::Par16].into_iter().enumerate() {
+                                let tl = Tl::new(if kind == Kind::Par16 { 16 } else { 8 });
+                                tl.begin_call(1 << 20, None);
+                                let res = model_init_direct(ModelId::Extra(j as u8), kind, &ModelOptions::with_all(extra_fb(j as u8), (0, 0)), &tl);
+                                tl.end_call();
+                                r[k] = !matches!(res, Ok(Err(InitResult::Unsupported)));
+                            }
+                            r
+                        })
+                        .collect()
+                });
+                t[i as usize][match kind {
+                    Kind::Serial => 0,
+                    Kind::Par8 => 1,
+                    Kind::Par16 => 2,
+                }]
+            }
             _ => true,
         }
     }
@@ -914,7 +965,9 @@ where
     }
     fn release_rebuild(self: Box<Self>, cfg: &DispCfg, tl: &Tl) -> Built {
         let me = *self;
-        let (di, _model, _rst) = me.display.release();
+        let (di, _model, rst) = me.display.release();
+        tl.b().released_rst = Some(rst.is_some());
+        drop(rst);
         T::rebuild(di, me._keep, cfg, tl)
     }
 }
@@ -1115,6 +1168,7 @@ pub fn build(cfg: &DispCfg, tl: &Tl) -> Built {
         Ext65535 => go565::<Ext<65535, 65535, Rgb565>>(cfg, tl),
         Ext65535c666 => go666::<Ext<65535, 65535, Rgb666>>(cfg, tl),
         ExtQuirk => go565::<ExtQ>(cfg, tl),
+        Extra(i) => extra_build(i, cfg, tl),
     }
 }
 
@@ -1142,7 +1196,7 @@ pub fn compiled_fb(id: ModelId) -> (u16, u16) {
 
 /// Direct `Model::init` on an L1 recorder of any kind (reaches pairings that
 /// `Builder` cannot express, e.g. an Rgb666 model on a 16-bit bus).
-pub fn model_init_direct(id: ModelId, kind: Kind, opts: &ModelOptions, tl: &Tl) -> Result<Result<u8, InitResult>, CallResult> {
+fn init_direct_by_kind<M: MkModel>(kind: Kind, opts: &ModelOptions, tl: &Tl) -> Result<u8, InitResult> {
     fn run<M: MkModel, DI: Interface<Error = Fault>>(mut di: DI, opts: &ModelOptions, tl: &Tl) -> Result<u8, InitResult> {
         let mut delay = tl.delay();
         let mut m = M::mk();
@@ -1164,13 +1218,14 @@ pub fn model_init_direct(id: ModelId, kind: Kind, opts: &ModelOptions, tl: &Tl) 
             Err(ModelInitError::InvalidConfiguration(_)) => Err(InitResult::InvalidOffset),
         }
     }
-    fn by_kind<M: MkModel>(kind: Kind, opts: &ModelOptions, tl: &Tl) -> Result<u8, InitResult> {
-        match kind {
-            Kind::Serial => run::<M, _>(L1::<u8, KSerial>::new(tl), opts, tl),
-            Kind::Par8 => run::<M, _>(L1::<u8, KP8>::new(tl), opts, tl),
-            Kind::Par16 => run::<M, _>(L1::<u16, KP16>::new(tl), opts, tl),
-        }
+    match kind {
+        Kind::Serial => run::<M, _>(L1::<u8, KSerial>::new(tl), opts, tl),
+        Kind::Par8 => run::<M, _>(L1::<u8, KP8>::new(tl), opts, tl),
+        Kind::Par16 => run::<M, _>(L1::<u16, KP16>::new(tl), opts, tl),
     }
+}
+pub fn model_init_direct(id: ModelId, kind: Kind, opts: &ModelOptions, tl: &Tl) -> Result<Result<u8, InitResult>, CallResult> {
+    use init_direct_by_kind as by_kind;
     use ModelId::*;
     guarded(|| match id {
         GC9107 => by_kind::<models::GC9107>(kind, opts, tl),
@@ -1187,6 +1242,7 @@ pub fn model_init_direct(id: ModelId, kind: Kind, opts: &ModelOptions, tl: &Tl) 
         ST7735s => by_kind::<models::ST7735s>(kind, opts, tl),
         ST7789 => by_kind::<models::ST7789>(kind, opts, tl),
         ST7796 => by_kind::<models::ST7796>(kind, opts, tl),
+        Extra(i) => extra_init_direct(i, kind, opts, tl),
         _ => panic!("harness: model_init_direct is for built-in models"),
     })
 }
